@@ -254,10 +254,21 @@ def features(line, crash=False):
             f.append("result-shape-differs")   # padded shape equals neither argument's shape
         if st[0][0] == st[1][0]:
             f.append("same-type")
+        if 0 in sa and 0 in sb:
+            f.append("both-empty")             # neither argument has an element
     if op in ("OMember", "OIndexIn") and len(st) >= 2 and 0 in st[1][1]:
         f.append("empty-needle")
     if st and any(0 in a[1] for a in st[:2 if op[:3] in ("OP2", "OMa", "OCo", "OJo", "OMe", "OIn", "OFi") else 1]):
         f.append("empty-axis")
+    if op.split(":")[-1] in ("ATake", "ADrop", "ARotate") and st:
+        # more amounts than the array has axes
+        if op.startswith("OAmt"):
+            ish = info["stack"][0][1]
+            namt = ish[0] if len(ish) == 1 else 0
+        else:
+            namt = 0 if ptoks[2] == "1" else int(ptoks[3])
+        if namt > len(st[0][1]):
+            f.append("too-many-axes")
     zero_amt = bool(re.search(r"\bi0\b", head)) or (op.startswith("OAmt") and any(e == "ENum 0" for e in (info["stack"][0][2] or [])))
     if (op.endswith("ATake") or op.endswith("APick")) and st and (0 in st[0][1] or (zero_amt and op.endswith("ATake"))):
         f.append("empty-array")   # the array, or the result of an earlier axis, has no elements
@@ -311,7 +322,7 @@ CARVE_OUTS = [
     "first/last of an empty array with a fill value; match of two EMPTY arrays of different element type",
     "join with an empty rank-1 list (shape [0]) on either side (implementation special-cases it; documentation silent)",
     "sort/rise/fall of box arrays (box order only described as 'lexicographic'); rise/fall/classify/deduplicate of a scalar",
-    "take/drop/rotate/select/keep on a scalar array; take by negative infinity; drop by an infinity; amounts of rank >= 2 for take/drop/rotate/reshape/keep",
+    "take/drop/rotate/select/keep on a scalar array; take by negative infinity; drop by an infinity; amounts of rank >= 2 for take/drop/rotate/reshape/keep (more amounts than axes is claimed to be an error since round 3)",
     "select/pick with an infinite or non-integer index when a fill is set; pick with a negative index when a fill is set",
     "reshape: scalar infinite shape, derived axis when the other axes multiply to 0, cycling an empty array",
     "keep: counts longer than the array, non-integer scalar count, non-number fill",
